@@ -147,7 +147,7 @@ def check_copy_invariant(src, cp):
 
 
 SNIPPET_COUNTER = [0]
-EDIT_KINDS = ("add_symbol", "remove_symbol", "add_equation", "remove_equation", "add_class", "remove_class")
+EDIT_KINDS = ("add_symbol", "remove_symbol", "add_equation", "remove_equation", "add_class", "remove_class", "transplant_class")
 
 
 def parse_snippet(text):
@@ -180,11 +180,52 @@ class History:
             return self.op_copy(0)
         if k < 0.18 and len(self.handles) < 5:
             return self.op_copy(self.pick_handle())
-        if k < 0.60:
+        if k < 0.52:
             return self.op_edit(self.pick_handle())
-        if k < 0.72:
+        if k < 0.60 and len(self.handles) >= 2:
+            return self.op_transplant()
+        if k < 0.68:
             return self.op_generate(self.pick_handle())
+        if k < 0.76:
+            # generate, edit the class just generated, generate again: the second request must see the edit
+            hi = self.pick_handle()
+            cands = mlib.flattenable_classes(self.handles[hi]["lib"])
+            if cands:
+                cname = r.choice(cands)
+                kind = r.choice(["xml", "sympy"])
+                bad = self.op_generate(hi, cname, kind)
+                if bad:
+                    return bad
+                self.op_edit(hi, cname, r.choice(["add_symbol", "add_equation", "remove_equation"]))
+                return self.op_generate(hi, cname, kind)
         return self.op_flatten(self.pick_handle())
+
+    def op_transplant(self):
+        """deep-copy ONE top-level class of one handle and add it to another handle that does not have a class of
+        that name (a 'Kq' class added earlier, or a class the target lost through remove_class).  The source handle
+        must be unaffected."""
+        r = self.r
+        pairs = []
+        for si, sh in enumerate(self.handles):
+            for ti, th in enumerate(self.handles):
+                if si == ti:
+                    continue
+                have = {c["name"] for c in th["lib"]["classes"]}
+                for c in sh["lib"]["classes"]:
+                    if c["name"].startswith("Kq") and c["name"] not in have:
+                        pairs.append((si, ti, c))
+        if not pairs:
+            return self.op_edit(self.pick_handle(), kind="add_class")
+        si, ti, cdesc = r.choice(pairs)
+        src, dst = self.handles[si], self.handles[ti]
+        dst["tree"].add_class(copy.deepcopy(src["tree"].classes[cdesc["name"]]))
+        dst["lib"]["classes"].append(copy.deepcopy(cdesc))
+        self.ops.append(["transplant_class", ti, cdesc["name"], si])
+        self.has_edit = True
+        self.ctx.monitor("edits_applied")
+        self.ctx.cover("op:transplant_class:from-%s-to-%s" % (src["label"], dst["label"]))
+        # the class must still be there in the source
+        return self.op_flatten(si, cdesc["name"])
 
     def op_copy(self, hi):
         h = self.handles[hi]
@@ -204,28 +245,28 @@ class History:
             self.diag = bad
         return None
 
-    def op_edit(self, hi):
+    def op_edit(self, hi, cname=None, kind=None):
         r = self.r
         h = self.handles[hi]
         lib, tree = h["lib"], h["tree"]
         classes = all_classes(lib)
         if not classes:
             return None
-        kind = r.choice(["add_symbol", "add_symbol", "add_equation", "add_equation", "remove_equation", "remove_symbol",
-                         "add_class", "remove_class"])
-        cname = r.choice(classes)
+        kind = kind or r.choice(["add_symbol", "add_symbol", "add_equation", "add_equation", "remove_equation", "remove_symbol",
+                                 "add_class", "remove_class"])
+        cname = cname or r.choice(classes)
         d = desc_class(lib, cname)
         c = get_class(tree, cname)
         self.fresh += 1
         if kind == "add_symbol":
-            nm = "n%d" % self.fresh
+            nm = "zq%d" % self.fresh
             val = r.randint(1, 99)
             snip = parse_snippet("model X\n  Real %s(start = %d);\nend X;\n" % (nm, val))
             c.add_symbol(snip.classes["X"].symbols[nm])
             d["comps"].append({"name": nm, "type": "Real", "prefixes": [], "dims": [],
                                "mods": [{"path": [], "attr": "start", "expr": num(val), "spelling": "mixed"}], "value": None})
         elif kind == "remove_symbol":
-            cands = [x for x in d["comps"] if x["name"].startswith("n")]
+            cands = [x for x in d["comps"] if x["name"].startswith("zq")]
             if not cands:
                 return None
             x = r.choice(cands)
@@ -255,7 +296,7 @@ class History:
             c.remove_equation(c.equations[i])
             del d["eqs"][i]
         elif kind == "add_class":
-            nm = "K%d" % self.fresh
+            nm = "Kq%d" % self.fresh
             val = r.randint(1, 99)
             snip = parse_snippet("model %s\n  Real q;\nequation\n  q = %d;\nend %s;\n" % (nm, val, nm))
             tree.add_class(snip.classes[nm])
@@ -264,7 +305,7 @@ class History:
                 "eqs": [("eq", var("q"), num(val))], "ieqs": [], "connects": []})
             cname = nm
         elif kind == "remove_class":
-            tops = [x for x in lib["classes"] if x["name"].startswith("K")]
+            tops = [x for x in lib["classes"] if x["name"].startswith("Kq")]
             if not tops:
                 return None
             x = r.choice(tops)
@@ -277,7 +318,7 @@ class History:
         self.ctx.cover("op:%s:on-%s" % (kind, h["label"]))
         return None
 
-    def op_generate(self, hi):
+    def op_generate(self, hi, cname=None, kind=None):
         """sympy / xml generate directly on the handle (these backends work on a private deep copy
         of the caller's tree); compared with generate on a fresh parse of the handle's description."""
         import re
@@ -287,8 +328,8 @@ class History:
         cands = mlib.flattenable_classes(h["lib"])
         if not cands:
             return None
-        cname = r.choice(cands)
-        kind = r.choice(["xml", "sympy"])
+        cname = cname or r.choice(cands)
+        kind = kind or r.choice(["xml", "sympy"])
         self.ops.append(["generate-" + kind, hi, cname])
 
         def run(tree):
@@ -316,13 +357,13 @@ class History:
                         kind, cname, hi, h["label"], got[0] if got[0] == "ok" else got[1], exp[0] if exp[0] == "ok" else exp[1]))
         return None
 
-    def op_flatten(self, hi):
+    def op_flatten(self, hi, cname=None):
         r = self.r
         h = self.handles[hi]
-        cands = mlib.flattenable_classes(h["lib"])
+        cands = [cname] if cname else mlib.flattenable_classes(h["lib"])
         # sometimes ask for a class that only exists in another handle
-        others = [c for o in self.handles for c in mlib.flattenable_classes(o["lib"]) if c.startswith("K")]
-        if others and r.random() < 0.25:
+        others = [c for o in self.handles for c in mlib.flattenable_classes(o["lib"]) if c.startswith("Kq")]
+        if others and not cname and r.random() < 0.25:
             cands = others
         if not cands:
             return None
